@@ -724,11 +724,22 @@ class MemorizedFunc(Logger):
                 self.store_backend.get_cached_func_code([self.func_id])
             )
         except (IOError, OSError):  # some backend can also raise OSError
-            # No trace of the code that computed the results possibly present
-            # (e.g. a clearing of the cache was interrupted after the removal
-            # of the stored code): they cannot be trusted, wipe them.
-            self.clear(warn=False)
-            return False
+            if not self.store_backend.contains_results([self.func_id]):
+                # Nothing was stored for this function yet
+                self._write_func_code(func_code, first_line)
+                return False
+            try:
+                # Results are present: they were stored after their code by a
+                # concurrent first user of the function...
+                old_func_code, old_first_line = extract_first_line(
+                    self.store_backend.get_cached_func_code([self.func_id])
+                )
+            except (IOError, OSError):
+                # ... or there is no trace of the code that computed them
+                # (e.g. a clearing of the cache was interrupted after the
+                # removal of the stored code): they cannot be trusted.
+                self.clear(warn=False)
+                return False
         if old_func_code == func_code:
             return True
 
